@@ -55,6 +55,9 @@ SEED1, SEED2, SEED3 = mc("MC_Seeded_d1"), mc("MC_Seeded_d2"), mc("MC_Seeded_d3")
 FAIL2, FAILP, SIZES2, IDX1 = mc("MC_Fail_d2"), mc("MC_Fail2_d2"), mc("MC_Sizes_d2"), mc("MC_Idx_d1")
 FINAL2, SHRINK2, PAIRS2, CORE3H = mc("MC_Final_d2"), mc("MC_Shrink_d2"), mc("MC_Pairs_d2"), mc("MC_Core3_d4")
 CONV, PROOF = {"kind": "conv"}, {"kind": "proof"}
+# TLC simulation mode: random walks of depth 30 over the widest alphabet (3 handles, failures, panics, decoders);
+# TLC evaluates every enabled transition of every visited state, and every one of those is replayed
+SIM = mc("MC_Sim", sim=(16, 30), variants=False, workers=4)
 
 def conc(name, threads, configs, **kw):
     d = {"kind": "conc", "name": name, "threads": threads, "configs": configs}
@@ -68,9 +71,9 @@ def matrix(stages):
     return {"kind": "matrix", "configs": ["default", "nodefault", "all"], "profiles": ["release", "debug"], "stages": stages}
 
 PROFILES = {
-    "C01": {"quick": [CORE4, SEED2, dq("mixed")], "thorough": [CORE5, SEED3, CORE3H, FINAL2, dt("mixed"), dt("all")]},
-    "C02": {"quick": [CORE3, SEED2, FAIL2, SIZES2, dq("all")], "thorough": [CORE4, SEED3, CORE3H, FAILP, SIZES2, PROOF, dt("all")]},
-    "C03": {"quick": [CORE3, SEED2, FAIL2, dq("all")], "thorough": [CORE4, SEED3, CORE3H, FAILP, SIZES2, PROOF, dt("all")]},
+    "C01": {"quick": [CORE4, SEED2, dq("mixed")], "thorough": [CORE5, SEED3, CORE3H, FINAL2, SIM, dt("mixed"), dt("all")]},
+    "C02": {"quick": [CORE3, SEED2, FAIL2, SIZES2, dq("all")], "thorough": [CORE4, SEED3, CORE3H, FAILP, SIZES2, SIM, PROOF, dt("all")]},
+    "C03": {"quick": [CORE3, SEED2, FAIL2, dq("all")], "thorough": [CORE4, SEED3, CORE3H, FAILP, SIZES2, SIM, PROOF, dt("all")]},
     "C04": {"quick": [conc("own2", "{1,2}", "cQuick2", sample_every=200), conc("lend3", "{1,2,3}", "cLend2", sample_every=200)],
             "thorough": [conc("own2", "{1,2}", "cQuick2", sample_every=100), conc("lend3", "{1,2,3}", "cLend2", sample_every=100), conc("own3", "{1,2,3}", "cOwn3", sample_every=400)]},
     "C05": {"quick": [FAIL2, dq("fail")], "thorough": [FAILP, SEED2, dt("fail")]},
